@@ -30,6 +30,31 @@ KERNEL = {
     },
 }
 
+KERNEL['C12'] = {
+    'text': 'bounded symbolic execution of the real parse_attrs / parse_set_triple / OutSet operators with every attribute list an arbitrary subset of a small universe (bit-vector set model bound to the name frozenset): for every simulator type x any_inputs x presence pattern of the five keys, z3 decides rejected <=> the docstring rule rejects, the four result sets equal the rule, the partitions hold and explicitly given lists are returned unchanged; the set algebra is decided per operator and operand kind including a generic foreign element',
+    'ref': 'DESIGN.md section 5 C12',
+    'note': 'universe of 4 (quick) / 6 (thorough) attribute names: all subsets at once; lists modelled as sets (no duplicates); frozenset replaced by a model with the same protocol, OutSet and parse code executed for real; concrete replay on real frozensets',
+    'tech': 'symbolic execution of the real Python code with z3 (own executor), QF_BV set model',
+}
+KERNEL['C18'] = {
+    'text': 'bounded symbolic execution of the real connect_randomly / connect_many_to_one with a solver-driven RNG: every randint outcome and every shuffle permutation is explored, max_connects is an unbounded symbolic int; z3 decides each-source-once, evenness, max_connects, returned set and absence of exceptions on every path',
+    'ref': 'DESIGN.md section 5 C18',
+    'note': 'set sizes <= 4x3 (quick) / 6x4 (thorough); World.connect is a recorder; mosaik.util.random replaced by the solver-driven source, so every seed is covered; precondition |src| <= |dest|*max_connects assumed',
+    'tech': 'symbolic execution of the real Python code with z3 (own executor), RNG as symbolic/choice variables',
+}
+KERNEL['C06'] = {
+    'text': 'through the public API (start/group/connect/run): for every enumerated group placement and edge structure over 2-3 simulators (thorough: 4-rings) with every shift amount an unbounded symbolic int, z3 decides on each path: ScenarioError before any step <=> an unresolved cycle exists (oracle from the simple cycles of the chosen multigraph), no other exception, and the cycle named in the message is a real unresolved cycle',
+    'ref': 'DESIGN.md section 5 C06',
+    'note': 'N=2 all structures incl. self-connections (quick without the both-kinds multi-edges), N=3 without self-pairs (quick: rotating slice by VERIF_SEED), group depth <= 3; shifts unbounded; cache=False; simulators produce no data (until=1)',
+    'tech': 'symbolic execution of the real connect()/ensure_no_dataflow_cycles with z3 (own executor); structure enumeration + symbolic shifts',
+}
+KERNEL['C11'] = {
+    'text': 'through the public API: for 8 group placements x 9 type pairs x any_inputs, with attribute pair, weak, time_shifted (False/True/unbounded symbolic int), initial data and a second pair chosen by the engine, z3 decides connect() raises ScenarioError <=> one of the four reasons of the statement applies; the world is then run and a rejected pair must cause no output request, no input and no trigger; sibling-group scenarios (at root and under a parent) are explored completely under the reference monitors, which keep groups distinct by identity',
+    'ref': 'DESIGN.md section 5 C11',
+    'note': '2 simulators for validation (deterministic talkative behaviours, until=2), 3 for sibling runs (event-based loops, K<=3-4, until=2); async_requests and same-simulator connections outside',
+    'tech': 'symbolic execution of the real connect()/run() with z3 (own executor) + reference monitor',
+}
+
 NOT_APPLICABLE = {}
 
 
